@@ -106,5 +106,35 @@ theorem Resume.equiv_from (F : Fns K) (G : Nat → List (List K) → List (List 
 example : Good .MomentumSGD (initState .MomentumSGD [(1 : ℚ) / 4, 1 / 2] Base.init [[1, 2], [3]]) :=
   Primitiv.Opt.init_good _ _ _ _ (by decide)
 
+/-- (3′) **any number of interruptions.**  Training in segments of lengths
+`ns` — the process is stopped after every segment, the state goes through a
+checkpoint file and fresh objects — ends in the same optimizer state,
+parameter values and statistics as one uninterrupted run of `ns.sum` steps,
+from every reachable state, for every list of segment lengths (empty
+segments included: a checkpoint that is restored and saved again at once). -/
+theorem Resume.equiv_chain (F : Fns K) (G : Nat → List (List K) → List (List K)) (k : Kind) (s : State K)
+    (h : Good k s) (t : Nat) (ns : List Nat) :
+    obs (trainResumed F G k t ns s) = obs (train F G t ns.sum s) :=
+  (trainResumed_obs F G k ns t s h).1
+
+/-- the same from the start of a training program -/
+theorem Resume.equiv_chain_init (F : Fns K) (G : Nat → List (List K) → List (List K)) (k : Kind) (fields : List K)
+    (b : Base K) (vals : List (List K)) (hf : fields.length = arity k) (ns : List Nat) :
+    obs (trainResumed F G k 0 ns (initState k fields b vals)) = obs (train F G 0 ns.sum (initState k fields b vals)) :=
+  (trainResumed_obs F G k ns 0 _ (Primitiv.Opt.init_good k fields b vals hf)).1
+
+/-- a restored state is again one from which training (and checkpointing) runs -/
+theorem Resume.restore_good (F : Fns K) (k : Kind) (s : State K) (h : Good k s) :
+    Good k (restore F k (checkpoint s)) :=
+  Good_of_obs k _ _ (Primitiv.Opt.restore_checkpoint F k s h).symm h
+
+/-- saving what was just restored writes the same checkpoint again: nothing
+is lost or invented by a save / load / save cycle -/
+theorem Resume.checkpoint_idempotent (F : Fns K) (k : Kind) (s : State K) (h : Good k s) :
+    checkpoint (restore F k (checkpoint s)) = checkpoint s :=
+  checkpoint_of_obs _ _ (Primitiv.Opt.restore_checkpoint F k s h)
+
+example : ([2, 0, 3] : List Nat).sum = 5 := by decide
+
 end
 end Primitiv.C15
